@@ -27,6 +27,11 @@ def UH.id : UH → Nat
   | .none => 0
   | .tx id _ => id
 
+/-- id of the transaction enclosing the innermost one, 0 = none -/
+def UH.parentId : UH → Nat
+  | .none => 0
+  | .tx _ p => p.id
+
 /-- a handle is live while every transaction of its chain is open -/
 def UH.live (opn : Nat → Bool) : UH → Bool
   | .none => true
@@ -92,6 +97,8 @@ structure Faults where
   begin : Bool := false
   lock : Bool := false
   commit : Bool := false
+  /-- only the `Commit` of an outermost transaction fails (a savepoint release succeeds) -/
+  commitTop : Bool := false
   rollback : Bool := false
   /-- 0 = none, k = the state-tracker statement with tag k fails -/
   sql : Nat := 0
@@ -187,7 +194,7 @@ def wRelease (s : St) (c : W) : St := s.emit (.release c.u.id)
 def wCommit (s : St) (c : W) : Ret × St :=
   let t := c.u.id
   if t = 0 || !c.u.live s.opn then (.txdone, s.emit (.commit t .done))
-  else if s.faults.commit then
+  else if s.faults.commit || (s.faults.commitTop && c.u.parentId == 0) then
     (.commit, { s with opn := upd s.opn t false }.emit (.commit t .fail))
   else
     let s := { s with opn := upd s.opn t false }.emit (.commit t .ok)
